@@ -17,19 +17,20 @@ import (
 // path item, or a chain of parameter / response / path-item references).
 
 var docURLs = []string{
-	"file:///r/s/root.json",     // 0 root
-	"file:///r/s/sib.json",      // 1 sibling file
-	"file:///r/s/sub/o.json",    // 2 sub-directory
-	"file:///r/up.json",         // 3 parent directory
-	"http://h/x/y.json",         // 4 absolute URL on another scheme/host
-	"file:///r/s2/p.json",       // 5 sibling directory whose name extends the root directory's name
-	"file:///r/s/sub/q.json",    // 6 second document of the sub-directory
-	"file:///r/t/u/v.json",      // 7 cousin directory (two levels)
-	"http://h/r/s/root.json",    // 8 same path as the root document, on another scheme and host
-	"file:///r/s/root.json.bak", // 9 sibling file whose name extends the root document's name
+	"file:///r/s/root.json",      // 0 root
+	"file:///r/s/sib.json",       // 1 sibling file
+	"file:///r/s/sub/o.json",     // 2 sub-directory
+	"file:///r/up.json",          // 3 parent directory
+	"http://h/x/y.json",          // 4 absolute URL on another scheme/host
+	"file:///r/s2/p.json",        // 5 sibling directory whose name extends the root directory's name
+	"file:///r/s/sub/q.json",     // 6 second document of the sub-directory
+	"file:///r/t/u/v.json",       // 7 cousin directory (two levels)
+	"http://h/r/s/root.json",     // 8 same path as the root document, on another scheme and host
+	"file:///r/s/root.json.bak",  // 9 sibling file whose name extends the root document's name
+	"http://h:8080/r/s/sib.json", // 10 same path as the sibling file, on a host with a port (with Site 1: the root's host, another port)
 }
 
-var docNames = []string{"root", "sibling", "subdir", "parentdir", "absolute-http", "prefix-sibling-dir", "subdir2", "cousin", "same-path-other-site", "name-extends-root-name"}
+var docNames = []string{"root", "sibling", "subdir", "parentdir", "absolute-http", "prefix-sibling-dir", "subdir2", "cousin", "same-path-other-site", "name-extends-root-name", "same-host-other-port"}
 
 const (
 	formProperties = iota
@@ -89,6 +90,7 @@ type gspec struct {
 	EntrySpell int
 	IDs        []string // optional "id" per node ("" none)
 	NoDecoys   bool
+	Site       int         // 0: the universe as written (root in file:///r/s/); 1: re-homed, file:///r/ -> http://h/r/ and http://h/ -> http://other/
 	LocalRefs  bool        // the root also holds a parameter / response that is a $ref to a parameter / response of the root
 	Breaks     map[int]int // edge index (or -1: entry refs to N0, -10-k: chain hop k) -> break mode
 }
@@ -612,7 +614,24 @@ func (g *gspec) build() *built {
 		b, _ := json.Marshal(d)
 		out.Docs[u] = b
 	}
+	if g.Site == 1 {
+		out = rehome(out)
+	}
 	return out
+}
+
+// rehome moves the whole universe to a remote site: what was below file:///r/ is served by http://h/r/,
+// what was on http://h/ by http://other/ (texts and locations alike, so every reference keeps its target).
+func rehome(b *built) *built {
+	mv := func(s string) string {
+		s = strings.ReplaceAll(s, "http://h/", "http://other/")
+		return strings.ReplaceAll(s, "file:///r/", "http://h/r/")
+	}
+	nb := &built{Docs: map[string]json.RawMessage{}, Root: mv(b.Root), Feat: b.Feat}
+	for u, d := range b.Docs {
+		nb.Docs[mv(u)] = json.RawMessage(mv(string(d)))
+	}
+	return nb
 }
 
 func (g *gspec) features() map[string]string {
@@ -648,6 +667,7 @@ func (g *gspec) features() map[string]string {
 	f["chain"] = strings.Join(ch, ">")
 	f["chainlen"] = strconv.Itoa(len(g.Chain))
 	f["entryspell"] = spellNames[g.EntrySpell]
+	f["site"] = []string{"file", "http"}[g.Site]
 	ids := []string{}
 	for _, id := range g.IDs {
 		if id != "" {
